@@ -77,6 +77,17 @@ for pn, sn in ((0, 0), (1, 1)):
     _embed(find_emails, "network.email", pn, sn, "nonword", "email_neutral_r", [b"bo", (2, "lower"), b"@example.com"], "find_emails",
            funcs=["multidecoder.decoders.network.find_emails"], name=f"email_p{pn}_s{sn}", timeout=600)
 
+# unrelated neighbouring text glued on by a delimiter: <any byte><delimiter> before the address
+CLASSES["email_delim"] = "(not (" + WORD + " or {x} == 46 or {x} == 37 or {x} == 43 or {x} == 45))"
+_t = Tmpl(1, (1, "email_delim"), b"bo", (1, "lower"), b"@example.com", (1, "email_neutral_r"))
+
+
+def _email_glued(data):
+    return exactly_one(find_emails, data, 2, 2 + 15, "network.email", list(data[2:17]), "find_emails"), True
+
+
+_add("email_glued_to_neighbour", _t, _email_glued, funcs=["multidecoder.decoders.network.find_emails"], timeout=600)
+
 # URL (value = the text itself: no escapes in the instance)
 for pn, sn in ((0, 0), (1, 1)):
     _embed(find_urls, "network.url", pn, sn, "url_neutral_l", "url_neutral_r", [b"http://example.com/a", (2, "lower"), b"/b"],
